@@ -566,8 +566,18 @@ func c09CodecRun(t *testing.T, tape *simrt.Tape, o simwork.Opts) *simwork.Result
 		}
 		break
 	}
+	// a caller may decode every message into one object (DecodeNext replaces
+	// the target's content, like Unmarshal): the sequence read back is still
+	// the sequence written
+	reuse := tape.Bool(1, 3, "reuse-target")
+	if reuse {
+		res.Probes["codec-target-reused"]++
+	}
+	got := &conformancev1.ConformancePayload{}
 	for i := 0; i <= complete; i++ {
-		got := &conformancev1.ConformancePayload{}
+		if !reuse {
+			got = &conformancev1.ConformancePayload{}
+		}
 		err := dec.DecodeNext(got)
 		if i < complete {
 			if err != nil {
